@@ -280,7 +280,7 @@ func copySourceItem(
 		value = vslice[0]
 	}
 
-	if string(item.Destination[0]) != "." {
+	if len(item.Destination) == 0 || string(item.Destination[0]) != "." {
 		return &JSONPathFormatError{Path: item.Destination}
 	}
 	trimmedDestination := strings.TrimPrefix(item.Destination, ".")
@@ -389,12 +389,21 @@ func updateStatusConditionsFromOwnedObject(
 			continue
 		}
 
+		condType, typeOK := condMap["type"].(string)
+		condStatus, statusOK := condMap["status"].(string)
+		if !typeOK || !statusOK {
+			return apimachineryerrors.NewBadRequest("malformed condition")
+		}
+		// reason and message are optional in foreign APIs
+		condReason, _ := condMap["reason"].(string)
+		condMessage, _ := condMap["message"].(string)
+
 		newCond := metav1.Condition{
-			Type:               condMap["type"].(string),
-			Status:             metav1.ConditionStatus(condMap["status"].(string)),
+			Type:               condType,
+			Status:             metav1.ConditionStatus(condStatus),
 			ObservedGeneration: objectTemplate.ClientObject().GetGeneration(),
-			Reason:             condMap["reason"].(string),
-			Message:            condMap["message"].(string),
+			Reason:             condReason,
+			Message:            condMessage,
 		}
 		meta.SetStatusCondition(objectTemplate.GetConditions(), newCond)
 	}
